@@ -12,12 +12,30 @@ FRAGS = ["'", '"', "'''", '"""', '\\', '\\\\', '\n', '\r', '{', '}', '{{', '}}',
 BFRAGS = [f.encode('utf-8', 'surrogatepass') if '\ud800' not in f else b'\xed\xa0\x80' for f in FRAGS] + [b'\xff', b'\x80']
 
 
+@st.composite
+def breaker_str(draw):
+    """The classic attack on a printer that tries several spellings of a literal: text that stays inside the literal under the correct
+    escaping but falls outside it if a backslash, a quote or a prefix is mishandled - [filler] [backslashes] quote PAYLOAD quote [comment]."""
+    q1 = draw(st.sampled_from(["'", '"', "'''", '"""']))
+    q2 = draw(st.sampled_from(["'", '"', "'''", '"""', '']))
+    pre = ''.join(draw(st.lists(st.sampled_from(['\\d', '\\', '\\\\', 'a', ' ', '{', '}', 'r', 'b', '\\N{BULLET}', 'é']), max_size=3)))
+    mid = draw(st.sampled_from(['\\', '', '\\\\', '\\\\\\']))
+    payload = draw(st.sampled_from(['+x+', '+str(1)+', ' or x or ', ',x,', ' if x else ', '+__import__("%s")+' % CANARY, ';import %s;' % CANARY, ')+(x)+(',
+                                    '+__import__(chr(118))+', ' and x.y and ', '.x+', '[x]+', '%x%', '+f()+']))
+    tail = draw(st.sampled_from(['#', '', '\\', '#' + q1, q1, '\n', '#' + q2, ' #']))
+    return pre + mid + q1 + payload + q2 + tail
+
+
 def hostile_str(max_parts=5):
-    return st.lists(st.sampled_from(FRAGS), min_size=0, max_size=max_parts).map(''.join)
+    return st.one_of(st.lists(st.sampled_from(FRAGS), min_size=0, max_size=max_parts).map(''.join),
+                     st.lists(st.sampled_from(FRAGS), min_size=0, max_size=max_parts).map(''.join),
+                     breaker_str())
 
 
 def hostile_bytes(max_parts=5):
-    return st.lists(st.sampled_from(BFRAGS), min_size=0, max_size=max_parts).map(b''.join)
+    return st.one_of(st.lists(st.sampled_from(BFRAGS), min_size=0, max_size=max_parts).map(b''.join),
+                     st.lists(st.sampled_from(BFRAGS), min_size=0, max_size=max_parts).map(b''.join),
+                     breaker_str().map(lambda t: t.encode('utf-8')))
 
 
 def fliteral(s, q='"'):
